@@ -405,7 +405,8 @@ DFloatSprint(String buf, DFloat d)
 #if 1
 		if (d == 0.0)
 			/*ugly hack to fix output of 0.0 under windows*/
-			sprintf(buf, "0.0000000000000000");
+			sprintf(buf, (1.0 / d < 0.0) ? "-0.0000000000000000"
+						      : "0.0000000000000000");
 		else
 			sprintf(buf, "%#.*g", DBL_DIG+2, d);
 #else
